@@ -98,7 +98,7 @@ impl Monitor for C18 {
         if tier == Tier::Sanitizer {
             vec!["ok", "err_oversize"]
         } else {
-            vec!["ok", "ok_wrap", "ok_zero_len", "ok_exact_fit", "err_oversize", "err_oversize_by_one", "hostile_status", "implicit_ok", "adapter_ok", "mac_handoff_ok", "mac_handoff_exact_fit", "mac_handoff_nb", "mac_handoff_nb_after_ignored_packet"]
+            vec!["ok", "ok_wrap", "ok_zero_len", "ok_exact_fit", "err_oversize", "err_oversize_by_one", "hostile_status", "implicit_ok", "adapter_ok", "mac_handoff_ok", "mac_handoff_exact_fit", "mac_handoff_nb", "mac_handoff_nb_after_ignored_packet", "refetch_after_lost_transaction"]
         }
     }
     fn exhaustive(&self, tier: Tier) -> bool {
@@ -308,6 +308,45 @@ fn run_shots<RK: RadioKind, C: Probe>(
         if matches!(r, Ok(Err(_))) {
             // a call that does not return leaves the driver in an unknown state: stop this case
             break;
+        }
+        // ---- the same packet fetched again after a fetch that a bus fault cut short ---------
+        // (helper-level API only: get_rx_result may be called again for the same packet; whatever
+        // the lost transaction left behind on the chip, the second fetch is held to the statement)
+        let n_txn = bus.borrow().chip.transcript().len() as u32;
+        if case.path == Path::Direct && shot.status.is_none() && matches!(r, Ok(Ok((Ok(_), _)))) && (shot.start == 0 || shot.nonce % 16 == 0) && n_txn > 0 && n_txn < 40 {
+            for j in 1..=n_txn {
+                {
+                    let mut sh = bus.borrow_mut();
+                    sh.chip.clear_transcript();
+                    sh.arm(Some(crate::bus::Fault { kind: crate::bus::FaultKind::Spi, at: j }));
+                }
+                for (i, b) in arena.iter_mut().enumerate() {
+                    *b = canary(i);
+                }
+                {
+                    let buf = &mut arena[GUARD..GUARD + case.bufsize];
+                    let l = lora.as_mut().unwrap();
+                    let _ = trap(|| exec::run(l.get_rx_result(pkt, buf), exec::POLL_BUDGET).map(|(r, p)| (r.map(|x| x.0 as usize).map_err(|e| format!("{:?}", e)), p)));
+                }
+                {
+                    let mut sh = bus.borrow_mut();
+                    sh.arm(None);
+                    sh.chip.clear_transcript();
+                }
+                for (i, b) in arena.iter_mut().enumerate() {
+                    *b = canary(i);
+                }
+                let r2: Result<Result<(Result<usize, String>, u64), u64>, Trapped> = {
+                    let buf = &mut arena[GUARD..GUARD + case.bufsize];
+                    let l = lora.as_mut().unwrap();
+                    trap(|| exec::run(l.get_rx_result(pkt, buf), exec::POLL_BUDGET).map(|(r, p)| (r.map(|x| x.0 as usize).map_err(|e| format!("{:?}", e)), p)))
+                };
+                col.event("refetch_after_lost_transaction");
+                judge(var, case, shot, &r2, &arena, bus, col);
+                if matches!(r2, Ok(Err(_))) {
+                    return;
+                }
+            }
         }
     }
 }
